@@ -414,6 +414,7 @@ def gen_gen(r, force=None):
     with_assoc = [r.random() < 0.3 for _ in names]
     skipped = [r.random() < 0.25 for _ in names]
     lifetime = r.random() < 0.2
+    lt2 = r.random() < 0.4      # a second lifetime parameter with a bound on the first: `'a, 'b: 'a`
     const = r.random() < 0.2
     const_first = r.random() < 0.5     # `const N: usize` before the type parameters (allowed since Rust 1.59) or after them
     default_u = np == 2 and r.random() < 0.2 and not with_assoc[1]
@@ -423,8 +424,12 @@ def gen_gen(r, force=None):
     if force is not None:
         # the fixed part of the corpus: every layout of the generics list x every skip pattern, plain members
         np, names, with_assoc, default_u, qself = 2, pool[:2], [False, False], False, False
-        lifetime, const, const_first, skipped = force['lifetime'], force['const'] != 'none', force['const'] == 'first', force['skipped']
-    args_text = ', '.join((["'a"] if lifetime else []) + (['N'] if (const and const_first) else []) + names + (['N'] if (const and not const_first) else []))
+        lifetime, const, const_first, skipped = bool(force['lifetime']), force['const'] != 'none', force['const'] == 'first', force['skipped']
+        lt2 = force['lifetime'] == 'two'
+    lt2 = lt2 and lifetime
+    lts_use = (["'a", "'b"] if lt2 else ["'a"]) if lifetime else []
+    lts_decl = (["'a", "'b: 'a"] if lt2 else ["'a"]) if lifetime else []
+    args_text = ', '.join(lts_use + (['N'] if (const and const_first) else []) + names + (['N'] if (const and not const_first) else []))
     self_text = ('crate::S' if qself else 'S')
     me = Named('self', text=f'{self_text}<{args_text}>')
     selfref = r.choice([T('opt', T('box', me)), T('vec', me), T('box', T('opt', me))]) if False else r.choice([T('opt', T('box', me)), T('vec', me)])
@@ -498,7 +503,7 @@ def gen_gen(r, force=None):
     def inline(k):
         bs = (['Tr'] if (with_assoc[k] and not tr_in_where[k]) else []) + (['schema::TypeInfo'] if foreign[k] else [])
         return (': ' + ' + '.join(bs)) if bs else ''
-    gens = (["'a"] if lifetime else []) + (['const N: usize'] if (const and const_first) else []) + \
+    gens = lts_decl + (['const N: usize'] if (const and const_first) else []) + \
         [nm + inline(k) + (' = u8' if (default_u and k == 1) else '') for k, nm in enumerate(names)] + \
         (['const N: usize'] if (const and not const_first) else [])
     attrs = []
@@ -514,6 +519,8 @@ def gen_gen(r, force=None):
     extra = []
     if lifetime:
         extra.append("    {pub}lt: &'a str,\n")
+    if lt2:
+        extra.append("    {pub}lt2: &'b str,\n")
     if const:
         extra.append('    {pub}arr: [u8; N],\n')
     src = PRELUDE + '#[derive(TypeInfo)]\n' + (f'#[scale_info({", ".join(attrs)})]\n' if attrs else '')
@@ -529,7 +536,7 @@ def gen_gen(r, force=None):
     if force is not None:
         # a skipped parameter is instantiated with a type that has no TypeInfo: only a correct where clause accepts it
         inst = [Named('NoInfo') if skipped[k] else T('u', n=8) for k in range(np)]
-    iargs = (["'static"] if lifetime else []) + (['3'] if (const and const_first) else []) + [t.rust() for t in (inst[:1] if omit_default else inst)] + \
+    iargs = (["'static"] * len(lts_use)) + (['3'] if (const and const_first) else []) + [t.rust() for t in (inst[:1] if omit_default else inst)] + \
         (['3'] if (const and not const_first) else [])
     src += f'fn main() {{\n    let _ = scale_info::meta_type::<S<{", ".join(iargs)}>>();\n}}\n'
     # ---------------- proto
@@ -555,7 +562,7 @@ def main():
     lines = []
     if 'gen' in classes:
         kx = 0
-        for lifetime in (False, True):
+        for lifetime in (False, True, 'two'):
             for const in ('none', 'last', 'first'):
                 for skipped in ([False, False], [True, False], [False, True], [True, True]):
                     src, p = gen_gen(random.Random(7000 + kx), force=dict(lifetime=lifetime, const=const, skipped=skipped, foreign=(kx % 4 == 1)))
